@@ -88,9 +88,9 @@ theorem sem_pure_stmt (m : Nat) (k : Ctx) (c : Cmd) (hc : pipeRCmd c = true) (e 
     · simp [sem, swrap, isChecked, pureEff, h1]
     · have h1' : k.ign = false := by simpa using h1
       by_cases h2 : e.errexit = true
-      · simp [sem, swrap, isChecked, pureEff, h1', h2, hte, Prog.isNil]
+      · simp [sem, swrap, isChecked, pureEff, h1', h2, hte, Prog.isNil, errAction]
       · have h2' : e.errexit = false := by simpa using h2
-        simp [sem, swrap, isChecked, pureEff, h1', h2', hte, Prog.isNil]
+        simp [sem, swrap, isChecked, pureEff, h1', h2', hte, Prog.isNil, errAction]
   case echo w =>
     simp [sem, swrap, isChecked, pureEff]
   case test x neg v =>
@@ -101,9 +101,9 @@ theorem sem_pure_stmt (m : Nat) (k : Ctx) (c : Cmd) (hc : pipeRCmd c = true) (e 
       · simp [sem, swrap, isChecked, pureEff, h0', h1]
       · have h1' : k.ign = false := by simpa using h1
         by_cases h2 : e.errexit = true
-        · simp [sem, swrap, isChecked, pureEff, h0', h1', h2, hte, Prog.isNil]
+        · simp [sem, swrap, isChecked, pureEff, h0', h1', h2, hte, Prog.isNil, errAction]
         · have h2' : e.errexit = false := by simpa using h2
-          simp [sem, swrap, isChecked, pureEff, h0', h1', h2', hte, Prog.isNil]
+          simp [sem, swrap, isChecked, pureEff, h0', h1', h2', hte, Prog.isNil, errAction]
 
 theorem foldStmts_single (f : Stmt → St → Option St) (x : Stmt) (s : St) :
     foldStmts f (.cons x .nil) s = f x s := by
@@ -128,11 +128,11 @@ theorem run_pipe (n : Nat) (x y : Stmt) (s : St) (hs : stop s = false) :
 theorem sem_pipe (n : Nat) (k : Ctx) (x y : Stmt) (e : Env) :
     sem (n+1) k (.cmd (.pipe x y)) e =
       match subRun (fun st => sem n { k with depth := 0 } (.stmt st))
-          (fun a e' => sem n { k with depth := 0 } (.trap a) e') (.cons x .nil) (subEnv e []) with
+          (fun a e' => sem n { k with depth := 0, exitTrap := true } (.trap a) e') (.cons x .nil) (subEnv e []) with
       | none => none
       | some (_, e1) =>
         match subRun (fun st => sem n { k with depth := 0 } (.stmt st))
-            (fun a e' => sem n { k with depth := 0 } (.trap a) e') (.cons y .nil) (subEnv e e.out) with
+            (fun a e' => sem n { k with depth := 0, exitTrap := true } (.trap a) e') (.cons y .nil) (subEnv e e.out) with
         | none => none
         | some (_, e2) =>
           some (.norm, { e with status := if e.pipefail && e2.status = 0 then e1.status else e2.status,
@@ -179,7 +179,7 @@ theorem sim_pipe {n : Nat} (hS : SimS n) {K : SCtx} {k : Ctx} {sub : Bool} {s : 
             out := s.out ++ (pureEff s.vars s.lastExit.code cy).2 }) :=
       ⟨_, sem_pure_stmt m { k with depth := 0 } cy hcy (subEnv (absEnv s) (absEnv s).out) rfl⟩
     have hsub2 : subRun (fun st => sem (m+2) { k with depth := 0 } (.stmt st))
-        (fun a e' => sem (m+2) { k with depth := 0 } (.trap a) e') (.cons (.mk false cy) .nil)
+        (fun a e' => sem (m+2) { k with depth := 0, exitTrap := true } (.trap a) e') (.cons (.mk false cy) .nil)
         (subEnv (absEnv s) (absEnv s).out) =
         some (.norm, { subEnv (absEnv s) (absEnv s).out with
           status := (pureEff s.vars s.lastExit.code cy).1,
